@@ -330,7 +330,13 @@ func (p *queryPlan) processClause(ctx context.Context, cls *semantic.GraphClause
 		if err != nil {
 			return false, err
 		}
-		b, tbl, err := simpleExist(ctx, p.grfs, cls, t, p.tracer)
+		gs := p.grfs
+		if outsideTimeBounds(cls.P, lo) {
+			// The triple is outside of the global time bounds; it does
+			// not need to be looked up in any graph.
+			gs = nil
+		}
+		b, tbl, err := simpleExist(ctx, gs, cls, t, p.tracer)
 		if err != nil {
 			return false, err
 		}
